@@ -19,6 +19,9 @@
 (* A packet that is discarded may or may not have consumed a delay draw.   *)
 (* With p = 0 (or no loss rate) a loss draw is optional and never loses.   *)
 (*                                                                         *)
+(* "Packet" means one entry into the wire: the same object handed in twice  *)
+(* (a retransmission) is two entries, each with its own instant and draws. *)
+(*                                                                         *)
 (* Time is an integer number of lattice ticks.  Urgency: the clock may not *)
 (* advance while the head-of-line packet still needs a draw or is due.     *)
 (***************************************************************************)
